@@ -13,10 +13,11 @@ import Poupool.Model.Actor
     effects one by one against the slave's FIFO inbox, while the slave keeps serving its inbox and third parties
     keep queuing messages (so the slave runs *during* the master's handler as well):
       - a tell tag appends (from master, message) to the slave's inbox;
-      - an `is_halt` question (an `ask` whose TRUE refinement makes the ghost variable a "known halted" value) can
-        be answered TRUE only if none of the master's messages waits in the slave's inbox and the slave is
-        halted (pykka answers a question after everything queued before it; the asker is blocked meanwhile);
-        the answer FALSE (or a timeout) is always possible;
+      - an answer to a question that is an *observation* of the slave (the refinement of that answer makes the
+        ghost variable a "known halted" value: `is_halt()` TRUE, `is_heating()` FALSE) is possible only if none of
+        the master's messages waits in the slave's inbox and the slave is halted (pykka answers a question after
+        everything queued before it; the asker is blocked meanwhile); any other answer, or a timeout, is always
+        possible;
       - the slave serves the head of its inbox with `step` of ITS generated description; a start message that
         does not come from the master is guarded by a synchronous question to the master: it is answered between
         two master handlers and refused unless the master's phase is in `allowed`.
@@ -494,13 +495,12 @@ inductive CStep (S : CSpec) : CSt → CSt → Prop
   /-- next effect: any other emitted tag (device writes, publishes, tells to other actors) -/
   | mEmit (g : CSt) (t : Nat) (rest : List Eff) (h : g.todo = .emit t :: rest) (ht : S.tells.lookup t = none) :
       CStep S g { g with todo := rest }
-  /-- next effect: a question answered TRUE; if it is `X.is_halt()` this needs X's inbox free of master messages
-      and X halted -/
-  | mAskTrue (g : CSt) (t f : List (VarId × Int)) (rest : List Eff) (h : g.todo = .ask true t f :: rest)
-      (hq : askHalting S t = true → noMaster g.inbox ∧ S.isHalt g.x = true) :
-      CStep S g { g with todo := rest }
-  /-- next effect: a question answered FALSE (or timed out): always possible -/
-  | mAskFalse (g : CSt) (t f : List (VarId × Int)) (rest : List Eff) (h : g.todo = .ask false t f :: rest) :
+  /-- next effect: a question, answered `ans`.  If the refinement of that answer makes the ghost variable a "known
+      halted" value (`X.is_halt()` answered TRUE, `X.is_heating()` answered FALSE, …) the answer is an observation
+      of X: it needs X's inbox free of master messages and X halted.  Every other answer (and a timeout, which is
+      a branch without question in the generated program) is always possible. -/
+  | mAsk (g : CSt) (ans : Bool) (t f : List (VarId × Int)) (rest : List Eff) (h : g.todo = .ask ans t f :: rest)
+      (hq : askHalting S (if ans then t else f) = true → noMaster g.inbox ∧ S.isHalt g.x = true) :
       CStep S g { g with todo := rest }
   /-- anybody else (dispatcher, X's own timers and self-tells, third actors, the master's untracked calls) queues
       a message for X -/
@@ -521,15 +521,15 @@ inductive CReach (S : CSpec) : CSt → Prop
   | init : CReach S (cinit S)
   | step {g g' : CSt} : CReach S g → CStep S g g' → CReach S g'
 
-/-- abstract reading of one effect: after it, is the LAST thing the master did towards X a halt-class tell or
-    an observed `is_halt() = True`? -/
+/-- abstract reading of one effect: after it, is the last *relevant* thing the master did towards X a halt-class
+    tell or an observed `is_halt() = True`?  (telling a start message destroys the knowledge; telling a message
+    that is neither halt-class nor a start message keeps it: by H2 such a message cannot un-halt X) -/
 def ghost1 (S : CSpec) (a : Bool) : Eff → Bool
   | .emit t =>
       match S.tells.lookup t with
-      | some m => S.isHaltMsg m
+      | some m => if S.isHaltMsg m then true else if S.isStart m then false else a
       | none => a
-  | .ask true t _ => a || askHalting S t
-  | .ask false _ _ => a
+  | .ask ans t f => a || askHalting S (if ans then t else f)
 
 def ghostAfter (S : CSpec) (a : Bool) (effs : List Eff) : Bool := effs.foldl (ghost1 S) a
 
@@ -538,11 +538,9 @@ def ghostAfter (S : CSpec) (a : Bool) (effs : List Eff) : Bool := effs.foldl (gh
 inductive Act
   /-- the master handles `msg`; of the possible outcomes of the generated handler take the first satisfying `pick` -/
   | master (msg : Msg) (pick : St × List Eff → Bool)
-  /-- the master performs the next effect of its handler (a question is answered TRUE whenever that is possible) -/
+  /-- the master performs the next effect of its handler (fails if it is an observation that is not possible now) -/
   | eff
-  /-- the master's next effect is a question and it is answered FALSE -/
-  | effFalse
-  /-- the master performs all the remaining effects of its handler (questions answered TRUE when possible) -/
+  /-- the master performs all the remaining effects of its handler -/
   | drain
   /-- a third party queues `m` for the slave -/
   | other (m : Msg)
@@ -559,10 +557,10 @@ def eff1 (S : CSpec) (g : CSt) : Option CSt :=
       match S.tells.lookup t with
       | some msg => some { g with inbox := g.inbox ++ [(true, msg)], todo := rest }
       | none => some { g with todo := rest }
-  | .ask true t _ :: rest =>
-      if !askHalting S t || (g.inbox.all (fun e => !e.1) && S.isHalt g.x) then some { g with todo := rest }
+  | .ask ans t f :: rest =>
+      if !askHalting S (if ans then t else f) || (g.inbox.all (fun e => !e.1) && S.isHalt g.x) then
+        some { g with todo := rest }
       else none
-  | .ask false _ _ :: rest => some { g with todo := rest }
 
 def drainN (S : CSpec) : Nat → CSt → Option CSt
   | 0, g => some g
@@ -602,10 +600,6 @@ def act (S : CSpec) (g : CSt) : Act → Option CSt
       else none
   | .eff => eff1 S g
   | .drain => drainN S g.todo.length g
-  | .effFalse =>
-      match g.todo with
-      | .ask false _ _ :: rest => some { g with todo := rest }
-      | _ => none
   | .other m =>
       if (allMsgs S.DX).contains m then some { g with inbox := g.inbox ++ [(false, m)] } else none
   | .deliver pick => deliver1 S pick g
